@@ -416,6 +416,8 @@ def migratePod (s : State) (p : PodObj) (out inQ : Nat) : State :=
   let s1 := updPodReq s out (some p) none
   let s2 := if asg then updPodUsed s1 out p.id (some p) none else s1
   let s3 := cacheRemove s2 out p.id
+  -- (fix 5a63beb) a target that already holds the pod is left alone: adding it again would count it twice
+  if existsIn s3 inQ p.id then s3 else
   let s4 := cacheAdd s3 inQ p
   -- updatePodIsAssignedNoLock(in, pod, isAssigned): same flag => error, ignored; a DIFFERENT flag is overwritten in
   -- both directions (an entry the target already held as assigned is cleared when the pod is unassigned in `out`)
